@@ -49,12 +49,12 @@ func internSort(s *Sort) *Sort {
 
 var BoolSort = internSort(&Sort{Kind: SBool})
 
-func BV(w int) *Sort              { return internSort(&Sort{Kind: SBV, W: w}) }
-func ArrSort(i, e *Sort) *Sort    { return internSort(&Sort{Kind: SArray, Idx: i, Elem: e}) }
-func USort(name string) *Sort     { return internSort(&Sort{Kind: SUninterp, Name: name}) }
-func (s *Sort) String() string    { return s.str }
-func (s *Sort) IsBV() bool        { return s.Kind == SBV }
-func (s *Sort) IsArray() bool     { return s.Kind == SArray }
+func BV(w int) *Sort           { return internSort(&Sort{Kind: SBV, W: w}) }
+func ArrSort(i, e *Sort) *Sort { return internSort(&Sort{Kind: SArray, Idx: i, Elem: e}) }
+func USort(name string) *Sort  { return internSort(&Sort{Kind: SUninterp, Name: name}) }
+func (s *Sort) String() string { return s.str }
+func (s *Sort) IsBV() bool     { return s.Kind == SBV }
+func (s *Sort) IsArray() bool  { return s.Kind == SArray }
 
 var BV64 = BV(64)
 var BV8 = BV(8)
@@ -65,10 +65,10 @@ type Term struct {
 	Op    string // "const","true","false","var","bound", smt op names, "app:<fn>", "forall","exists","extract","zext","sext","constarr"
 	Args  []*Term
 	Sort  *Sort
-	Val   uint64 // const value (bv)
-	Name  string // var / uf / bound name
-	I, J  int    // extract hi/lo, ext amount
-	bound bool   // contains a bound variable
+	Val   uint64  // const value (bv)
+	Name  string  // var / uf / bound name
+	I, J  int     // extract hi/lo, ext amount
+	bound bool    // contains a bound variable
 	Bvars []*Term // for quantifiers
 	Pats  [][]*Term
 }
@@ -666,6 +666,24 @@ func bvcmp(op string, a, b *Term) *Term {
 	if a == b {
 		return BoolC(op == "bvule" || op == "bvsle")
 	}
+	if w == 64 && len(nonNeg) > 0 && (op == "bvslt" || op == "bvsle") {
+		switch op {
+		case "bvslt": // a < b
+			if provablyGE(b, a, 1) {
+				return True
+			}
+			if provablyGE(a, b, 0) {
+				return False
+			}
+		case "bvsle": // a <= b
+			if provablyGE(b, a, 0) {
+				return True
+			}
+			if provablyGE(a, b, 1) {
+				return False
+			}
+		}
+	}
 	return mk(&Term{Op: op, Sort: BoolSort, Args: []*Term{a, b}})
 }
 
@@ -736,6 +754,66 @@ type idBound struct {
 	k    uint64
 }
 
+// nonNeg: terms known to lie in [0, 2^45] (lengths, offsets, capacities)
+var nonNeg = map[*Term]bool{}
+
+// signLowerBound: is the 64-bit term d provably >= c (signed), using nonNeg atoms?  d must be a
+// sum of at most 16 nonNeg atoms with coefficient 1 plus a small constant.
+func sumOfNonNeg(d *Term) (int64, bool) {
+	return lowerBound(d, 0)
+}
+
+// lowerBound: a signed lower bound of a 64-bit term built from small constants, nonNeg atoms,
+// sums and ites (all magnitudes stay far below 2^62, so there is no wrap-around)
+func lowerBound(d *Term, depth int) (int64, bool) {
+	if d.Sort.W != 64 || depth > 6 {
+		return 0, false
+	}
+	switch {
+	case d.IsConst():
+		v := int64(d.Val)
+		if v > 1<<50 || v < -(1<<50) {
+			return 0, false
+		}
+		return v, true
+	case nonNeg[d]:
+		return 0, true
+	case d.Op == "ite":
+		x, ok1 := lowerBound(d.Args[1], depth+1)
+		y, ok2 := lowerBound(d.Args[2], depth+1)
+		if !ok1 || !ok2 {
+			return 0, false
+		}
+		if y < x {
+			x = y
+		}
+		return x, true
+	case d.Op == "bvadd" && len(d.Args) <= 16:
+		var c int64
+		for _, a := range d.Args {
+			v, ok := lowerBound(a, depth+1)
+			if !ok {
+				return 0, false
+			}
+			c += v
+		}
+		return c, true
+	}
+	return 0, false
+}
+
+// provablyGE: a - b >= c (signed, no overflow) ?
+func provablyGE(a, b *Term, c int64) bool {
+	if a.Sort.W != 64 {
+		return false
+	}
+	d := Sub(a, b)
+	if lo, ok := sumOfNonNeg(d); ok && lo >= c {
+		return true
+	}
+	return false
+}
+
 var idUpper = map[*Term][]idBound{}
 var nextSyms = map[*Term]bool{}
 var nextGE = map[*Term]idBound{} // next symbol >= base + k
@@ -787,6 +865,11 @@ func lessThanAlloc(t *Term, base *Term, j uint64) bool {
 func distinctIdx(a, b *Term) bool {
 	if a.IsConst() && b.IsConst() {
 		return a.Val != b.Val
+	}
+	if a.Sort.IsBV() && a.Sort.W == 64 && len(nonNeg) > 0 {
+		if provablyGE(a, b, 1) || provablyGE(b, a, 1) {
+			return true
+		}
 	}
 	if a.Sort.IsBV() && a.Sort.W == 64 {
 		if ba, ja, ok := splitAddConst(a); ok && nextSyms[ba] && lessThanAlloc(b, ba, ja) {
